@@ -70,6 +70,8 @@ def panic_or(kinds_set, scen_prefixes):
 def c01_relevant(kind, rec, case):
     if kind == "panic" and "Expected_retrieved_integer_variable_from_solution_to_be_assigned" in rec:
         return True  # a partial assignment was handed out as a solution
+    if kind == "fix":
+        return True  # exact propagation correspondence up to and including the solution state
     return kind in ("sol", "asol", "partial")
 
 
